@@ -12,6 +12,7 @@ import (
 	"os"
 	"path/filepath"
 	"reflect"
+	"runtime"
 	"runtime/debug"
 	"strings"
 	"time"
@@ -28,6 +29,29 @@ const (
 	kfK9 = "K9-record-substitution-not-detected-by-direct-reads"
 	kfK10 = "K10-vlog-id-beyond-value-logs-nil-deref"
 )
+
+// liveness bounds: a case normally takes 10-100 ms; the bounds only guard the "bounded time" clause and must
+// not fire because the machine is oversubscribed
+const (
+	caseBound  = 600 * time.Second
+	indexBound = 300 * time.Second
+)
+
+// storeStacks: the goroutines that are inside immudb or the harness (for the report of a hang).
+func storeStacks() string {
+	buf := make([]byte, 8<<20)
+	buf = buf[:runtime.Stack(buf, true)]
+	var out []string
+	for _, g := range strings.Split(string(buf), "\n\n") {
+		if strings.Contains(g, "codenotary/immudb") || strings.Contains(g, "checks/c09") {
+			out = append(out, firstLines(g, 24))
+		}
+		if len(out) >= 30 {
+			break
+		}
+	}
+	return strings.Join(out, "\n\n")
+}
 
 // result of one altered copy
 type result struct {
@@ -427,8 +451,8 @@ func (c *checker) waitIndex(n uint64) {
 		c.lg.mu.Unlock()
 		cancel()
 		<-done
-	case <-time.After(90 * time.Second):
-		c.res.fail("bounded time: the index neither reached tx %d nor reported a failure within 90 s", n)
+	case <-time.After(indexBound):
+		c.res.fail("bounded time: the index neither reached tx %d nor reported a failure within %v; goroutines:\n%s", n, indexBound, storeStacks())
 		cancel()
 		<-done
 	}
@@ -586,9 +610,9 @@ func checkAltered(p *pristine, dir string, alt *alteration, rebuilt bool) *resul
 	}()
 	select {
 	case <-done:
-	case <-time.After(180 * time.Second):
+	case <-time.After(caseBound):
 		// res is still being written by the stuck goroutine: report without touching it
-		return &result{violation: "bounded time: reading the altered copy did not finish within 180 s (a read path hangs)",
+		return &result{violation: fmt.Sprintf("bounded time: reading the altered copy did not finish within %v (a read path hangs); goroutines:\n%s", caseBound, storeStacks()),
 			errs: map[string]int{}, oks: map[string]int{}, notes: map[string]bool{}}
 	}
 	return res
